@@ -262,7 +262,10 @@ def run(ck, m):
         rnd = m.get(CM, "BaseImage.draw.render")
         fin_p = [c for c in body_walk(rnd) if isinstance(c, ast.Call) and call_name(c) == "print" and any(part == "finalbody" for _, part in try_context(c))]
         ck.expect(len(fin_p) == 1, "BaseImage.draw.render: clean-up print not found")
-        fd = _print_delta(fin_p[0], {}, {}, set()) if fin_p else {}
+        try:
+            fd = _print_delta(traced_call(rnd, fin_p[0]), {}, {}, set()) if fin_p else {}
+        except (Unk, NotPoly) as e:
+            raise AnalysisError(f"C06.R2: draw()'s clean-up write is not in the cursor-row transfer table: {e}") from None
         end = _add(_add(o_first[0], o_fin[0][1]), fd)
         ck.ob("R2", enclosing_stmt(o_fin[0][0]), end == L,
               f"on normal completion the cursor must end on the line immediately below the animation (row lines); the clean-up `{short(o_fin[0][0], 40)}` plus draw()'s final newline leave it at row {show(end)}, "
